@@ -91,11 +91,17 @@ func verifStartedChannelRWC(n *Node, t io.ReadWriteCloser) *Channel {
 // encoded for the link). Afterwards the channel is either closed and reported by a close event, or it keeps
 // delivering later valid writes. One schedule: every goroutine runs until it blocks, round-robin, to quiescence.
 // cause 0: transport Write error on a message; 1: raw message with an id outside the dialect; 2: transport Write error
-// on a forwarded frame. wrap 1: the transport is handed over behind a wrapper whose Close does nothing, as the custom
+// on a forwarded frame; 5-7: the same failures reported together with a full byte count. wrap 1: the transport is handed over behind a wrapper whose Close does nothing, as the custom
 // and UDP broadcast endpoints do.
 func verifHarness_C13_failed_write(cause int, k int, wrap int) {
 	n := verifBareNode(V2, 1, 1)
 	t := &verifBlockRWC{}
+	if cause >= 5 {
+		// 5: message, failing once; 6: message, 7: frame, failing for good; the failing calls report the full byte
+		// count together with the error
+		t.SetFailFull(true)
+		cause = []int{0, 4, 3}[cause-5]
+	}
 	perm := cause >= 3 // 3: frame, 4: message, on a transport whose write side fails for good from call k on
 	if perm {
 		t.SetFailFrom(k)
